@@ -564,7 +564,23 @@ def check_state_vectors(ctx, rep, r1, r3):
                         contains(e, lambda y: is_call(y, '<impl [T]>::iter') or is_call(y, 'Vec::<T, A>::iter') or is_call(y, 'into_iter'))
                 up = has_cmp(S, 'lt', lambda l: is_const(l, 1.0), is_sum, False) or has_cmp(S, 'le', is_sum, lambda r: is_const(r, 1.0), True)
                 rep.ob(r3, sv, 'per-event-sum-bounded', up, 'sum <= 1 established for every event with a vector' + ('' if up else '; witness: ' + show_facts(S)))
-    # sum accumulation: sum += t.1 on every element iteration
+    # sum accumulation: sum += t.1 on every element iteration (a sum that is not a sum bounds nothing)
+    for h in inner:
+        body = loops[h]
+        ops = []
+        blocks_with = set()
+        for b in body:
+            for k, st0 in enumerate(sa.blocks[b]['s']):
+                if 'p' in st0 and st0['rv']['k'] == 'bin':
+                    e = sa.rvalue(st0['rv'], (b, k))
+                    if isinstance(e, tuple) and e[0] == 'bin' and (is_t(e[2], '1') or is_t(e[3], '1')) and e[1] in ('Add', 'Sub', 'Mul', 'Div'):
+                        ops.append(e[1])
+                        blocks_with.add(b)
+        uses_sum_adaptor = any(callee_str(f).endswith('Iterator::sum') or callee_str(f).endswith('Sum>::sum') for (b, f, a, t) in calls(sa))
+        if ops or not uses_sum_adaptor:
+            from .rules_limits import min_max_on_paths
+            lo, hi = min_max_on_paths(sa, h, blocks_with, body, stop_at_header=True) if blocks_with else (0, 0)
+            rep.ob(r3, sv, 'probabilities-are-added-up', set(ops) == {'Add'} and lo >= 1, 'arithmetic on Trans.1 in the element loop: %s, on every iteration: %s' % (sorted(set(ops)), lo >= 1))
     return sv, sa, sph
 
 
